@@ -195,6 +195,19 @@ CLAIMED = {
        "Trusted: Coq kernel, translator/gate2gallina.py, hand-written HeaderCache.v (K tie), extraction, sfdrive.",
   technique="Coq proof (invariant by induction over header-cache histories; translated open gate) + K correspondence; sanitizer mutation runs as search support",
   design_ref="DESIGN.md section 5 C03"),
+ "C16": dict(
+  text="PARTIAL. Theorems (Coq) over the ownership ledger Resources.v: for EVERY history of allocating operations that follows the allocation discipline (store into a field "
+       "psf_close frees; keep, free or know-empty the previous occupant; nested resources only under an installed close hook) psf_close leaves no block, stream, descriptor "
+       "or temporary file, and so does a failing open after any prefix (induction over histories); each rule is shown necessary by a leaking counter-history. The source's "
+       "release list, 50 allocation sites with their guards, nested resources and the exits of the four open functions are regenerated from src/*.c on every run "
+       "(Gen_Owned.v) and proved to follow the discipline (vm_compute over the finite inventory). Ties: inventory against a committed expectation; ledger correspondence "
+       "(events observed per handle through SF_PRIVATE replayed on the extracted model); oracle after every sf_close / failing sf_open: per-handle live heap blocks (ASan "
+       "allocator hooks) = 0, descriptor count and private TMPDIR back to base, sf_close = 0, LeakSanitizer, over every format x mode x metadata history and failing opens "
+       "at every parse depth.",
+  note="Not proved: that the codec initialisers follow the discipline on every path (local pointers handed over later), descriptors and temp files: observed only. "
+       "Trusted: Coq kernel, translator/res2gallina.py (regex), hand-written Resources.v, sfdrive + ASan hooks / LSan / procfs.",
+  technique="Coq proof (ledger invariant by induction over allocation histories; finite inventory regenerated from the source) + ledger correspondence + leak oracle",
+  design_ref="DESIGN.md section 5 C16"),
  "C14": dict(
   text="Theorems (Coq) over FileIO.v, the route switch of psf_fseek / psf_fread / psf_ftell / psf_get_filelen / psf_fclose: for EVERY history of seeks (SET/CUR), "
        "reads and tells that stay inside the sound file the descriptor route at fileoffset |pre| on pre ++ F ++ post returns exactly what the virtual route "
